@@ -230,7 +230,10 @@ void BpEndecodeArray(struct BpArrayDescriptor *descriptor,
 
     // Skip redundant bits if decoding.
     if (descriptor->extensible && (!ctx->is_encode)) {
-        int ito = i + (((int)ahead) * descriptor->cap);
+        // The opponent array occupies 16 bits (ahead) plus `ahead` elements,
+        // each as large as the elements just processed.
+        int element_nbits_processed = (ctx->i - i - 16) / descriptor->cap;
+        int ito = i + 16 + (((int)ahead) * element_nbits_processed);
         if (ito >= ctx->i) {
             ctx->i = ito;
         }
